@@ -1638,6 +1638,11 @@ class Node:
                 conn = connected_peer
                 break
 
+        if conn is None or conn.state not in PEER_READY_STATES:
+            # the request will not be answered any more
+            self._origin_waiting_answer.pop(
+                f"{message_id[0]}:{message_id[1]}", None)
+
         if conn is None:
             raise NotRoutable(
                 f"Connection waiting for an answer with ID {hex(message_id[0])} "
